@@ -7,6 +7,7 @@ package main
 
 import (
 	"fmt"
+	"go/token"
 
 	"golang.org/x/tools/go/ssa"
 )
@@ -211,4 +212,84 @@ func binaryFamily(readers bool) func(c *ssa.Call) (int, int, bool) {
 		}
 		return 0, 0, false
 	}
+}
+
+// ---- LOOP-BOUND: element loops run exactly as often as the container header says ----
+
+func stripWidening(v ssa.Value) ssa.Value {
+	for {
+		switch x := v.(type) {
+		case *ssa.ChangeType:
+			v = x.X
+		case *ssa.Convert:
+			w1, _ := intBits(x.Type())
+			w2, _ := intBits(x.X.Type())
+			if w1 == 0 || w2 == 0 || w1 < w2 {
+				return v
+			}
+			v = x.X
+		default:
+			return v
+		}
+	}
+}
+
+// loopBoundRule checks every counted loop of fn whose body calls one of the
+// functions accepted by isElemCall: the loop must be `for i := 0; i < B; i++`
+// (any equivalent form) where B — through widening conversions only, optionally
+// multiplied by a constant factor given by scale — is the size result sizeOf
+// returns for the header call that dominates the loop.
+func loopBoundRule(P *Program, r *Result, rule string, fn *ssa.Function, isElemCall func(*ssa.Call) bool, isSize func(v ssa.Value) bool) int {
+	n := 0
+	for _, hb := range fn.Blocks {
+		iff, ok := hb.Instrs[len(hb.Instrs)-1].(*ssa.If)
+		if !ok || !inLoop(hb) {
+			continue
+		}
+		bo, ok := iff.Cond.(*ssa.BinOp)
+		if !ok {
+			continue
+		}
+		cnt, bnd := bo.X, bo.Y
+		switch bo.Op {
+		case token.LSS:
+		case token.GTR:
+			cnt, bnd = bo.Y, bo.X
+		default:
+			continue
+		}
+		// does the loop body (the true side) contain element calls?
+		body := hb.Succs[0]
+		has := false
+		for _, c := range callsIn(fn) {
+			cc, isCall := c.(*ssa.Call)
+			if isCall && isElemCall(cc) && (cc.Block() == body || body.Dominates(cc.Block())) && len(body.Preds) == 1 {
+				has = true
+			}
+		}
+		if !has {
+			continue
+		}
+		n++
+		okCnt := false
+		if ph, isPhi := stripWidening(cnt).(*ssa.Phi); isPhi && isCounter(ph) {
+			w, _ := intBits(ph.Type())
+			okCnt = w >= 32
+		} else if boAdd, isAdd := stripWidening(cnt).(*ssa.BinOp); isAdd && boAdd.Op == token.ADD {
+			// range-style counter: phi(-1) + 1
+			if ph, isPhi := boAdd.X.(*ssa.Phi); isPhi {
+				w, _ := intBits(ph.Type())
+				okCnt = w >= 32 && rangeIndexFromZero(boAdd)
+			}
+		}
+		okBnd := isSize(stripWidening(bnd))
+		detail := ""
+		if !okCnt {
+			detail = "the loop counter is not a 0,1,2,… counter of at least 32 bits"
+		} else if !okBnd {
+			detail = "the loop bound is not the element count read from the container header (it was narrowed, clamped or replaced)"
+		}
+		r.add(rule, shortName(fn), "loop", "an element loop runs exactly as many times as the container header declares", P.pos(instrPos(iff)), okCnt && okBnd, detail)
+	}
+	return n
 }
